@@ -87,8 +87,9 @@ func validatePermTree(root *ptree.PermNode, isAccount bool) (bool, error) {
 
 		checkResult := false
 		if nameCheck == 0 {
-			// current node is AK, signature should be validated before
-			checkResult = true
+			// current node is AK: its signature was validated before only if it is the
+			// last component of a signer URI
+			checkResult = pnode.Signer
 		} else if nameCheck == 1 {
 			// current node is Account, so validation using ACLValidator
 			if pnode.ACL == nil {
